@@ -1819,6 +1819,13 @@ public:
 
 class ConstProp : public AstVisitor {
   SymbolTable &symbolTable;
+  /// 32-bit two's-complement addition and subtraction (no signed overflow).
+  static int wrapAdd(int a, int b) {
+    return static_cast<int>(static_cast<unsigned>(a) + static_cast<unsigned>(b));
+  }
+  static int wrapSub(int a, int b) {
+    return static_cast<int>(static_cast<unsigned>(a) - static_cast<unsigned>(b));
+  }
 public:
   ConstProp(SymbolTable &symbolTable) :
     AstVisitor(true, true, true), symbolTable(symbolTable) {}
@@ -1831,17 +1838,20 @@ public:
     auto &LHS = expr.getLHS();
     auto &RHS = expr.getRHS();
     if (LHS->isConst() && RHS->isConst()) {
-      // Evaluate binary expression.
+      // Evaluate binary expression. Arithmetic wraps around as it does on the
+      // target, and the relational operators are evaluated the way the
+      // generated code evaluates them (the sign of the wrapped difference), so
+      // that folding never changes the result of an expression.
       int result;
       switch (expr.getOp()) {
-        case Token::PLUS:  result = LHS->getValue() +  RHS->getValue(); break;
-        case Token::MINUS: result = LHS->getValue() -  RHS->getValue(); break;
+        case Token::PLUS:  result = wrapAdd(LHS->getValue(), RHS->getValue()); break;
+        case Token::MINUS: result = wrapSub(LHS->getValue(), RHS->getValue()); break;
         case Token::EQ:    result = LHS->getValue() == RHS->getValue(); break;
         case Token::NE:    result = LHS->getValue() != RHS->getValue(); break;
-        case Token::LS:    result = LHS->getValue() <  RHS->getValue(); break;
-        case Token::LE:    result = LHS->getValue() <= RHS->getValue(); break;
-        case Token::GR:    result = LHS->getValue() >  RHS->getValue(); break;
-        case Token::GE:    result = LHS->getValue() >= RHS->getValue(); break;
+        case Token::LS:    result = wrapSub(LHS->getValue(), RHS->getValue()) < 0; break;
+        case Token::LE:    result = !(wrapSub(RHS->getValue(), LHS->getValue()) < 0); break;
+        case Token::GR:    result = wrapSub(RHS->getValue(), LHS->getValue()) < 0; break;
+        case Token::GE:    result = !(wrapSub(LHS->getValue(), RHS->getValue()) < 0); break;
         case Token::AND:   result = LHS->getValue() == 0 ? 0 : (RHS->getValue() == 0 ? 0 : 1); break;
         case Token::OR:    result = LHS->getValue() != 0 ? 1 : (RHS->getValue() == 0 ? 0 : 1); break;
         default:
@@ -1856,7 +1866,7 @@ public:
       // Evaluate unary expression.
       int result;
       switch (expr.getOp()) {
-        case Token::MINUS: result = -element->getValue(); break;
+        case Token::MINUS: result = wrapSub(0, element->getValue()); break;
         case Token::NOT:   result = element->getValue() == 0 ? 1 : 0; break;
         default:
           throw SemanticTokenError(expr.getLocation(), "unexpected unary op", expr.getOp());
